@@ -179,6 +179,12 @@ func c10Sync(c *Ctx) {
 		}
 		return true
 	})
+	// equivalent stdlib form: maps.Copy(affected, X)
+	core.EachCall(f.Body, core.Deep, func(call *ast.CallExpr) {
+		if cal := core.Callee(info, call); cal != nil && cal.Pkg() != nil && cal.Pkg().Path() == "maps" && cal.Name() == "Copy" && len(call.Args) == 2 && core.ExprStr(call.Args[0]) == "affected" {
+			ranges = append(ranges, core.ExprStr(call.Args[1]))
+		}
+	})
 	sort.Strings(ranges)
 	c.R.Checkf(D, "affected-is-union", c.pos(f.Pos()), len(ranges) == 2 && ranges[0] == "oldSnapshot.ips" && ranges[1] == "snapshot.ips", "the affected address set is filled from the owner's old addresses and its new addresses: %v", ranges)
 	// the switch: !present -> delete (iff installed); installed-differs -> update with the desired bitmap
